@@ -14,7 +14,7 @@ RULE = ("per class: (a) joint assignments to all CDB fields at once (service act
         "alphabet; the spec encoder turns the assignment into bytes, then unmarshall_cdb(bytes) must equal the assignment, "
         "marshall_cdb(assignment) and marshall_cdb(unmarshall_cdb(bytes)) must equal the bytes, and relative to the baseline only the "
         "deviating fields may change; (b) every CDB built by the constructor for argument tuples with at most k-1 deviations is decoded "
-        "and re-encoded; (c) 13 fresh processes whose first library action is a base-class marshall / build / decode with an operation code of each length group, a refused marshall or a refused construction, followed by the first-ever dictionary-level encode/decode of every class at both baselines. Non-trivial = at least one deviation; distinct = distinct (class, mode, assignment).")
+        "and re-encoded; (c) 13 fresh processes whose first library action is a base-class marshall / build / decode with an operation code of each length group, a refused marshall or a refused construction, followed by the first-ever dictionary-level encode/decode of every class at both baselines; (d) per class, the layout table re-bound with one more field in a free byte (a user adding the CONTROL byte): class-level encode, instance-level build and decode must follow the table in place. Non-trivial = at least one deviation; distinct = distinct (class, mode, assignment).")
 ASSUMPTIONS = [
     "oracle: vf/spec/cdb.py + vf/spec/bits.py",
     "each class is used the way the repository's tests use it: an instance of the class is constructed immediately before its marshall_cdb/unmarshall_cdb are called (isolation between classes is C09's subject)",
@@ -153,7 +153,49 @@ def check_assignment(name, cls, vals, basevals=None, dev=()):
     return out
 
 
+def check_extension(name):
+    """a user extends a class's layout by re-binding the table with one more field (the CONTROL byte the shipped layouts leave out):
+    encode (class level and through an instance) and decode must all follow the table that is in place"""
+    cls, inst, op = fresh_instance(name)
+    ln = S.CLASSES[name]["length"]
+    free = [i for i in range(ln) if not (S.covered_mask(name) >> (8 * (ln - 1 - i))) & 0xFF]
+    if not free:
+        return []
+    byte = free[-1]
+    old = cls.__dict__.get("_cdb_bits", None)
+    inherited = old is None
+    table = dict(cls._cdb_bits)
+    table["x_control"] = [0xFF, byte]
+    out = []
+    try:
+        cls._cdb_bits = table
+        vals = base_of(name, "zeros")
+        vals["x_control"] = 0xA5
+        want = bytearray(spec_bytes(name, {k: v for k, v in vals.items() if k != "x_control"}))
+        want[byte] = 0xA5
+        got = {}
+        for label, fn in (("marshall_cdb", lambda: cls.marshall_cdb(dict(vals))), ("build_cdb on an instance", lambda: inst.build_cdb(**vals))):
+            try:
+                got[label] = bytes(fn())
+            except Exception as e:   # noqa: BLE001
+                got[label] = "raised %s: %s" % (type(e).__name__, e)
+            if got[label] != bytes(want):
+                out.append(("extension/%s" % name, "%s with the layout extended by a field in byte %d: %s gives %s, expected %s"
+                            % (name, byte, label, got[label].hex() if isinstance(got[label], bytes) else got[label], bytes(want).hex())))
+        d = cls.unmarshall_cdb(bytearray(want))
+        if d.get("x_control") != 0xA5:
+            out.append(("extension/%s" % name, "%s with the layout extended: decoding %s gives x_control=%r" % (name, bytes(want).hex(), d.get("x_control"))))
+    finally:
+        if inherited:
+            del cls._cdb_bits
+        else:
+            cls._cdb_bits = old
+    return out
+
+
 def run_case(case):
+    if case[0] == "extension":
+        return check_extension(case[1])
     if case[0] == "first-use":
         return [x for (_, _, v) in run_first_use(case[1]) for x in v]
     name, mode = case[0], case[1]
@@ -259,4 +301,13 @@ def run_partition(part, tier, seed):
         for k, what in v:
             acc.violation(k, what, case)
         acc.outcome((name, "built", tuple(sorted(point.items())), tuple(k for k, _ in v)))
+    case = ["extension", name]
+    acc.case(case, nontrivial=True, key=("extension", name))
+    try:
+        v = check_extension(name)
+    except Exception as e:
+        v = [("raises/%s" % name, "%s: extension check %s %r" % (name, type(e).__name__, e))]
+    for k, what in v:
+        acc.violation(k, what, case)
+    acc.outcome((name, "extension", tuple(k for k, _ in v)))
     return acc
